@@ -128,7 +128,7 @@ def check_query(ctx, rng, built, s, q, wb, wname, exp=None):
 def run(ctx):
     from vf import model
     model.check_analysis()
-    for idx in ctx.cases(quick=45, thorough=400):
+    for idx in ctx.cases(quick=75, thorough=400):
         rng = ctx.rng(idx)
         ctx.reseed_global(idx)
         grouped = rng.random() < 0.12
